@@ -54,8 +54,34 @@ def canaries():
     return rc
 
 
+def consistency():
+    """Inconsistent background (prelude axioms + entry facts) would discharge
+    everything. Every function's `requires-satisfiable` probe contains the
+    prelude modules that function uses; here they all run with a 20 s budget
+    (the per-check runs give them 2 s) and none may come back unsat."""
+    out = os.path.join(ROOT, "out", "selftest-consistency")
+    env = dict(os.environ)
+    for k in ("GOFLAGS", "GOTOOLCHAIN", "GOSUMDB", "GOPROXY"):
+        env.pop(k, None)
+    p = subprocess.run([os.path.join(ROOT, "bin", "govc"), "-verif", ROOT, "-only", "vacuity:requires-satisfiable", "-probe", "20", "-out", out],
+                       stdout=subprocess.PIPE, stderr=subprocess.STDOUT, text=True, env=env)
+    try:
+        res = json.load(open(os.path.join(out, "results.json")))
+    except Exception:
+        print(p.stdout[-2000:])
+        return 2
+    bad = [o for o in res["obligations"] if o["kind"] == "vacuity" and not o["ok"]]
+    for o in bad:
+        print("SELFTEST-FAIL inconsistent background: %s :: %s (%s)" % (o["fn"], o["name"], o.get("status")))
+    n = sum(1 for o in res["obligations"] if o["kind"] == "vacuity")
+    print("selftest consistency: %d probes (20 s each), %s" % (n, "ok" if not bad else "BROKEN"))
+    return 2 if bad or n == 0 else 0
+
+
 def main(args):
     rc = canaries()
+    if "--fast" not in args:
+        rc = consistency() or rc
     if "--seeds" in args:
         p = subprocess.run([sys.executable, os.path.join(ROOT, "lib", "seedtest.py")] + [a for a in args if a != "--seeds"])
         rc = rc or p.returncode
